@@ -465,25 +465,30 @@ def _gen_defined(rules, lcls, meta):
 
 
 def _gen_lookup(rules, meta):
-    """`expr : IDENT`: first variable with that name wins, else the identifier itself (a str, no integer)."""
-    hdr = "/-- `expr : IDENT`: which of several definitions of one name is used (`true` = the first) -/\n"
+    """`expr : IDENT`: which of several definitions of one name is used (first / last), else the identifier itself (a str)."""
+    hdr = "/-- `expr : IDENT`: which of several definitions of one name is used (`true` = the first, `false` = the last) -/\n"
     try:
         prods, fn = find_rule(rules, "expr", "IDENT")
         body = body_wo_doc(fn)
-        ok = (len(body) == 2 and isinstance(body[0], ast.For) and ast.unparse(body[0].iter) == "self._variables"
-              and isinstance(body[0].target, ast.Name) and len(body[0].body) == 1 and isinstance(body[0].body[0], ast.If)
-              and not body[0].orelse and not body[0].body[0].orelse
-              and ast.unparse(body[0].body[0].test) in (f"{body[0].target.id}.name == token.IDENT", f"token.IDENT == {body[0].target.id}.name")
-              and len(body[0].body[0].body) == 1 and isinstance(body[0].body[0].body[0], ast.Return)
-              and ast.unparse(body[0].body[0].body[0].value) == f"{body[0].target.id}.value"
-              and isinstance(body[1], ast.Return) and ast.unparse(body[1].value) == "token.IDENT")
-        if not ok:
+        shape = (len(body) == 2 and isinstance(body[0], ast.For)
+                 and isinstance(body[0].target, ast.Name) and len(body[0].body) == 1 and isinstance(body[0].body[0], ast.If)
+                 and not body[0].orelse and not body[0].body[0].orelse
+                 and ast.unparse(body[0].body[0].test) in (f"{body[0].target.id}.name == token.IDENT", f"token.IDENT == {body[0].target.id}.name")
+                 and len(body[0].body[0].body) == 1 and isinstance(body[0].body[0].body[0], ast.Return)
+                 and ast.unparse(body[0].body[0].body[0].value) == f"{body[0].target.id}.value"
+                 and isinstance(body[1], ast.Return) and ast.unparse(body[1].value) == "token.IDENT")
+        it = ast.unparse(body[0].iter) if shape else ""
+        if it == "self._variables":
+            first = True
+        elif it in ("reversed(self._variables)", "self._variables[::-1]"):
+            first = False
+        else:
             raise Untr("unrecognised shape of the IDENT rule")
-        meta["rules"]["lookupFirstWins"] = {"mode": "translated", "line": fn.lineno}
-        return hdr + "def lookupFirstWins : Bool := true\n/-- an undefined identifier evaluates to its own name (a str): no integer -/\ndef lookupUndefinedIsName : Bool := true\n"
+        meta["rules"]["lookup"] = {"mode": "translated", "line": fn.lineno, "first_wins": first}
+        return hdr + f"def lookupFirstWins : Bool := {'true' if first else 'false'}\n/-- the IDENT rule is a plain search of `_variables` by name (undefined: the identifier itself, a str) -/\ndef lookupRecognised : Bool := true\n"
     except Untr as exc:
-        meta["rules"]["lookupFirstWins"] = {"mode": "untranslatable", "reason": str(exc)}
-        return hdr + f"-- untranslatable: {exc}\ndef lookupFirstWins : Bool := false\ndef lookupUndefinedIsName : Bool := false\n"
+        meta["rules"]["lookup"] = {"mode": "untranslatable", "reason": str(exc)}
+        return hdr + f"-- untranslatable: {exc}\ndef lookupFirstWins : Bool := true\ndef lookupRecognised : Bool := false\n"
 
 
 def _gen_erase(rules, meta):
